@@ -69,6 +69,10 @@ func (c *c09) checkServer(name string, r *world.Resp) {
 		fam = fam[:i]
 	}
 	site := c.site(ex.Path + "/" + fam)
+	if strings.HasPrefix(ex.Panic, "simstore: request does not terminate") {
+		c.o.Violate("C09", "non-termination", site, c.step, "%s: %s %s -> %s", name, ex.Method, ex.URL, ex.Panic)
+		return
+	}
 	if ex.Panic != "" {
 		c.o.Violate("C09", "panic", site, c.step, "%s: %s %s -> handler panicked: %s", name, ex.Method, ex.URL, ex.Panic)
 		return
